@@ -1,9 +1,18 @@
 package main
 
 // The transition system takes certain regions of the code as single steps and relies on the
-// order in which runPeer and its handler goroutine take and return their slots.  This file
-// checks those structural facts on the source of the repository under test (go/ast), on every
-// run: "the code really is that atomic" is checked, not assumed (DESIGN.md 3.4).
+// order in which runPeer and its handler take and return their slots.  This file looks for
+// those structural facts in the source of the repository under test (go/ast) on every run.
+//
+// A lint never reports a failure by itself:
+//   - whole package directories are parsed and functions are found by name anywhere in the
+//     package; helpers extracted from the anchors are followed (two call levels);
+//   - an anchor that cannot be found at all becomes a note in the evidence ("lint not applicable
+//     on this tree"); the dynamic checks carry the property alone;
+//   - an anchor that is found but does not show the expected discipline is a broken TIE between
+//     model and source: the harness then runs the directed dynamic scenarios the lint stands for,
+//     harder (runDirected), and records the tie with Result.BreakTie.  bin/check reports a tie
+//     only when no monitor produced a concrete failing run (VIOLATION ... no-failing-input-found).
 
 import (
 	"fmt"
@@ -11,13 +20,21 @@ import (
 	"go/parser"
 	"go/printer"
 	"go/token"
+	"os"
 	"path/filepath"
+	"sort"
 	"strings"
 )
 
+type tie struct {
+	name, detail string
+	area         string // which directed scenarios stand for it: caps | slots | threadgroup | close
+}
+
 type lintCtx struct {
-	fset *token.FileSet
-	bad  []failure
+	fset  *token.FileSet
+	ties  []tie
+	notes []string
 }
 
 func (lc *lintCtx) src(n ast.Node) string {
@@ -26,19 +43,107 @@ func (lc *lintCtx) src(n ast.Node) string {
 	return sb.String()
 }
 
-func (lc *lintCtx) failf(kind, format string, a ...any) {
-	lc.bad = append(lc.bad, failure{kind, fmt.Sprintf(format, a...)})
+func (lc *lintCtx) tief(area, name, format string, a ...any) {
+	lc.ties = append(lc.ties, tie{name: name, detail: fmt.Sprintf(format, a...), area: area})
 }
 
-// containsOutsideFuncLit reports whether n contains a node satisfying pred that is not inside a
-// nested function literal.
-func containsOutsideFuncLit(n ast.Node, pred func(ast.Node) bool) bool {
-	found := false
+func (lc *lintCtx) notef(format string, a ...any) {
+	lc.notes = append(lc.notes, "lint not applicable on this tree: "+fmt.Sprintf(format, a...))
+}
+
+// pkg is one parsed package directory (non-test files).
+type pkg struct {
+	files []*ast.File
+	funcs map[string][]*ast.FuncDecl // by name
+}
+
+func (lc *lintCtx) load(repo, rel string) *pkg {
+	dir := filepath.Join(repo, rel)
+	ents, err := os.ReadDir(dir)
+	if err != nil {
+		lc.notef("%s: %v", rel, err)
+		return nil
+	}
+	p := &pkg{funcs: map[string][]*ast.FuncDecl{}}
+	var names []string
+	for _, e := range ents {
+		if !e.IsDir() && strings.HasSuffix(e.Name(), ".go") && !strings.HasSuffix(e.Name(), "_test.go") {
+			names = append(names, e.Name())
+		}
+	}
+	sort.Strings(names)
+	for _, n := range names {
+		f, err := parser.ParseFile(lc.fset, filepath.Join(dir, n), nil, 0)
+		if err != nil {
+			lc.notef("%s/%s: %v", rel, n, err)
+			continue
+		}
+		p.files = append(p.files, f)
+		for _, d := range f.Decls {
+			if fd, ok := d.(*ast.FuncDecl); ok && fd.Body != nil {
+				p.funcs[fd.Name.Name] = append(p.funcs[fd.Name.Name], fd)
+			}
+		}
+	}
+	return p
+}
+
+func recvName(fd *ast.FuncDecl) string {
+	if fd.Recv == nil || len(fd.Recv.List) != 1 {
+		return ""
+	}
+	t := fd.Recv.List[0].Type
+	if st, ok := t.(*ast.StarExpr); ok {
+		t = st.X
+	}
+	if id, ok := t.(*ast.Ident); ok {
+		return id.Name
+	}
+	return ""
+}
+
+// method finds a method (or function, recv == "") by name anywhere in the package.
+func (p *pkg) method(recv, name string) *ast.FuncDecl {
+	for _, fd := range p.funcs[name] {
+		if recvName(fd) == recv {
+			return fd
+		}
+	}
+	return nil
+}
+
+// callee resolves a call expression to a function of the package (by the last selector name).
+func (p *pkg) callee(call *ast.CallExpr) *ast.FuncDecl {
+	name := ""
+	switch f := call.Fun.(type) {
+	case *ast.Ident:
+		name = f.Name
+	case *ast.SelectorExpr:
+		name = f.Sel.Name
+	}
+	if fds := p.funcs[name]; len(fds) == 1 {
+		return fds[0]
+	}
+	return nil
+}
+
+// inspectNoLit walks n without entering nested function literals.
+func inspectNoLit(n ast.Node, fn func(ast.Node) bool) {
 	ast.Inspect(n, func(x ast.Node) bool {
-		if x == nil || found {
+		if x == nil {
 			return false
 		}
 		if _, ok := x.(*ast.FuncLit); ok && x != n {
+			return false
+		}
+		return fn(x)
+	})
+}
+
+func containsOutsideFuncLit(n ast.Node, pred func(ast.Node) bool) bool {
+	found := false
+	inspectNoLit(n, func(x ast.Node) bool {
+		if found {
 			return false
 		}
 		if pred(x) {
@@ -61,36 +166,82 @@ func isRecvFrom(n ast.Node, name string) bool {
 	return ok && id.Name == name
 }
 
-func isCallTo(n ast.Node, suffix string, lc *lintCtx) bool {
+func (lc *lintCtx) isCallTo(n ast.Node, suffix string) bool {
 	call, ok := n.(*ast.CallExpr)
 	return ok && strings.HasSuffix(lc.src(call.Fun), suffix)
 }
 
-func funcDecl(f *ast.File, recv, name string) *ast.FuncDecl {
-	for _, d := range f.Decls {
-		fd, ok := d.(*ast.FuncDecl)
-		if !ok || fd.Name.Name != name {
-			continue
+// reaches reports whether body (or a package function it calls, up to depth levels deep)
+// contains a node satisfying pred; rename maps an identifier passed as argument to the
+// parameter name inside the callee (used for the per-peer channel).
+func (lc *lintCtx) reaches(p *pkg, body ast.Node, depth int, pred func(n ast.Node) bool) bool {
+	if containsOutsideFuncLit(body, pred) {
+		return true
+	}
+	if depth == 0 {
+		return false
+	}
+	found := false
+	inspectNoLit(body, func(x ast.Node) bool {
+		if found {
+			return false
 		}
-		if recv == "" && fd.Recv == nil {
-			return fd
-		}
-		if fd.Recv != nil && len(fd.Recv.List) == 1 {
-			if st, ok := fd.Recv.List[0].Type.(*ast.StarExpr); ok {
-				if id, ok := st.X.(*ast.Ident); ok && id.Name == recv {
-					return fd
-				}
+		if call, ok := x.(*ast.CallExpr); ok {
+			if fd := p.callee(call); fd != nil && lc.reaches(p, fd.Body, depth-1, pred) {
+				found = true
+			}
+			if fl, ok := call.Fun.(*ast.FuncLit); ok && lc.reaches(p, fl.Body, depth, pred) {
+				found = true
 			}
 		}
-	}
-	return nil
+		return true
+	})
+	return found
 }
 
-// startsLocked: the body begins with <mu>.Lock(); defer <mu>.Unlock() (possibly after simple
-// early returns that touch nothing shared).
-func (lc *lintCtx) lockedRegion(fd *ast.FuncDecl, mu string, allowPrefix bool) bool {
+// paramFor returns the name the callee gives to the argument written as ident arg in call.
+func paramFor(call *ast.CallExpr, fd *ast.FuncDecl, arg string) string {
+	idx := -1
+	for i, a := range call.Args {
+		if id, ok := a.(*ast.Ident); ok && id.Name == arg {
+			idx = i
+		}
+	}
+	if idx < 0 {
+		return arg
+	}
+	i := 0
+	for _, f := range fd.Type.Params.List {
+		for _, n := range f.Names {
+			if i == idx {
+				return n.Name
+			}
+			i++
+		}
+	}
+	return arg
+}
+
+// takesLock: the function locks mu and releases it (deferred or explicit).
+func (lc *lintCtx) takesLock(fd *ast.FuncDecl, mu string) bool {
+	lock, unlock := false, false
+	ast.Inspect(fd.Body, func(n ast.Node) bool {
+		if lc.isCallTo(n, mu+".Lock") {
+			lock = true
+		}
+		if lc.isCallTo(n, mu+".Unlock") {
+			unlock = true
+		}
+		return true
+	})
+	return lock && unlock
+}
+
+// lockedToEnd: some top-level statement is mu.Lock() immediately followed by defer mu.Unlock();
+// only simple statements without side effects on shared state may precede it when allowPrefix.
+func (lc *lintCtx) lockedToEnd(fd *ast.FuncDecl, mu string, allowPrefix bool) bool {
 	for i, st := range fd.Body.List {
-		if es, ok := st.(*ast.ExprStmt); ok && isCallTo(es.X, mu+".Lock", lc) {
+		if es, ok := st.(*ast.ExprStmt); ok && lc.isCallTo(es.X, mu+".Lock") {
 			if i+1 < len(fd.Body.List) {
 				if ds, ok := fd.Body.List[i+1].(*ast.DeferStmt); ok && strings.HasSuffix(lc.src(ds.Call.Fun), mu+".Unlock") {
 					return i == 0 || allowPrefix
@@ -102,103 +253,163 @@ func (lc *lintCtx) lockedRegion(fd *ast.FuncDecl, mu string, allowPrefix bool) b
 	return false
 }
 
-func runLint(c *Ctx) {
+// runLint returns the broken ties; notes go to the evidence.
+func runLint(c *Ctx) []tie {
 	lc := &lintCtx{fset: token.NewFileSet()}
-	parse := func(rel string) *ast.File {
-		f, err := parser.ParseFile(lc.fset, filepath.Join(c.Repo, rel), nil, 0)
-		if err != nil {
-			lc.failf("lint-source-unreadable", "%s: %v", rel, err)
-			return nil
-		}
-		return f
-	}
-	if f := parse("syncer/syncer.go"); f != nil {
-		lc.lintRunPeer(f)
-		for _, fn := range []struct {
-			name, mu string
-			prefix   bool
-		}{{"allowConnect", "s.mu", false}, {"acquireInflight", "s.inflightMu", true}, {"releaseInflight", "s.inflightMu", true}} {
-			fd := funcDecl(f, "Syncer", fn.name)
+	if p := lc.load(c.Repo, "syncer"); p != nil {
+		lc.lintRunPeer(p)
+		lc.lintPeerCap(p)
+		for _, name := range []string{"acquireInflight", "releaseInflight"} {
+			fd := p.method("Syncer", name)
 			if fd == nil {
-				lc.failf("lint-anchor-missing", "syncer.(*Syncer).%s not found", fn.name)
-			} else if !lc.lockedRegion(fd, fn.mu, fn.prefix) {
-				lc.failf("syncer-critical-section-changed", "syncer.(*Syncer).%s no longer runs as one region under %s (Lock immediately followed by defer Unlock); the model takes it as one atomic step", fn.name, fn.mu)
+				lc.notef("syncer.(*Syncer).%s not found in the package", name)
+			} else if !lc.lockedToEnd(fd, "inflightMu", true) {
+				lc.tief("slots", "syncer-subnet-counter-region", "syncer.(*Syncer).%s no longer reads and writes the subnet counter in one region under inflightMu (Lock immediately followed by defer Unlock); the model takes it as one atomic step", name)
 			}
 		}
-		if fd := funcDecl(f, "Syncer", "addPeer"); fd == nil {
-			lc.failf("lint-anchor-missing", "syncer.(*Syncer).addPeer not found")
-		} else {
-			// the insertion into s.peers (and, since the repair, the comparison) happens in ONE region under s.mu
-			locks := 0
-			ast.Inspect(fd, func(n ast.Node) bool {
-				if isCallTo(n, "s.mu.Lock", lc) {
-					locks++
+		lc.lintClose(p, "syncer", "Syncer")
+	}
+	if p := lc.load(c.Repo, "threadgroup"); p != nil {
+		if fd := p.method("ThreadGroup", "Add"); fd == nil {
+			lc.notef("threadgroup.(*ThreadGroup).Add not found")
+		} else if !lc.lockedToEnd(fd, "mu", false) {
+			lc.tief("threadgroup", "threadgroup-add-region", "ThreadGroup.Add no longer tests the closed channel and increments the WaitGroup in one region under tg.mu")
+		}
+	}
+	if p := lc.load(c.Repo, "rhp/v4"); p != nil {
+		lc.lintClose(p, "rhp/v4", "Server")
+	}
+	if p := lc.load(c.Repo, "wallet"); p != nil {
+		lc.lintClose(p, "wallet", "SingleAddressWallet")
+	}
+	c.Res.Notes = append(c.Res.Notes, lc.notes...)
+	c.Res.Count("lint:runs")
+	c.Res.CountN("lint:anchors-not-found", len(lc.notes))
+	c.Res.CountN("lint:ties-broken", len(lc.ties))
+	return lc.ties
+}
+
+// lintClose: every path through Close reaches the thread group's Stop (directly or through a
+// helper): no return before it.
+func (lc *lintCtx) lintClose(p *pkg, dir, recv string) {
+	fd := p.method(recv, "Close")
+	if fd == nil {
+		lc.notef("%s: (*%s).Close not found", dir, recv)
+		return
+	}
+	isStop := func(n ast.Node) bool {
+		return lc.isCallTo(n, "tg.Stop") || lc.isCallTo(n, ".Stop") && strings.Contains(lc.src(n), "tg")
+	}
+	if !lc.reaches(p, fd.Body, 2, isStop) {
+		lc.notef("%s: (*%s).Close does not visibly call the thread group's Stop", dir, recv)
+		return
+	}
+	for _, st := range fd.Body.List {
+		if _, isDefer := st.(*ast.DeferStmt); isDefer && lc.reaches(p, st, 2, isStop) {
+			return // deferred: reached on every path
+		}
+		if lc.reaches(p, st, 2, isStop) && !containsOutsideFuncLit(st, isReturn) {
+			return
+		}
+		if containsOutsideFuncLit(st, isReturn) {
+			lc.tief("close", recv+"-close-reaches-stop", "%s: (*%s).Close can return at\n%s\nbefore the thread group is stopped: on that path background work would not be waited for and later work would be accepted", dir, recv, lc.src(st))
+			return
+		}
+	}
+}
+
+// lintPeerCap: the inbound cap is enforced under s.mu at the point of insertion -- the function
+// that inserts into s.peers compares against MaxInboundPeers (itself or through a counting
+// helper) in the same critical section as the insertion.  Where allowConnect takes its snapshot
+// (and how long it holds the mutex) does not matter for the cap.
+func (lc *lintCtx) lintPeerCap(p *pkg) {
+	var ins *ast.FuncDecl
+	var insStmt ast.Node
+	for _, fds := range p.funcs {
+		for _, fd := range fds {
+			ast.Inspect(fd.Body, func(n ast.Node) bool {
+				as, ok := n.(*ast.AssignStmt)
+				if !ok {
+					return true
+				}
+				for _, l := range as.Lhs {
+					if ix, ok := l.(*ast.IndexExpr); ok && strings.HasSuffix(lc.src(ix.X), ".peers") {
+						ins, insStmt = fd, as
+					}
 				}
 				return true
 			})
-			if locks != 1 {
-				lc.failf("syncer-critical-section-changed", "syncer.(*Syncer).addPeer takes s.mu %d times; the model takes the comparison and the insertion as one atomic step", locks)
+		}
+	}
+	if ins == nil {
+		lc.notef("syncer: no function inserts into s.peers")
+		return
+	}
+	// walk the top-level statements: Lock ... [compare] ... insertion, no Unlock call in between
+	locked, compared, done := false, false, false
+	var walk func(list []ast.Stmt)
+	walk = func(list []ast.Stmt) {
+		for _, st := range list {
+			if done {
+				return
+			}
+			if es, ok := st.(*ast.ExprStmt); ok {
+				if lc.isCallTo(es.X, "mu.Lock") {
+					locked, compared = true, false
+					continue
+				}
+				if lc.isCallTo(es.X, "mu.Unlock") {
+					locked, compared = false, false
+					continue
+				}
+			}
+			if locked && strings.Contains(lc.src(st), "MaxInboundPeers") {
+				compared = true
+			}
+			contains := false
+			ast.Inspect(st, func(n ast.Node) bool {
+				if n == insStmt {
+					contains = true
+				}
+				return !contains
+			})
+			if contains {
+				if blk, ok := st.(*ast.BlockStmt); ok {
+					walk(blk.List)
+					continue
+				}
+				if st == insStmt || !locked || !compared {
+					done = true
+					if !(locked && compared) {
+						lc.tief("caps", "syncer-inbound-cap-at-insertion", "syncer.(*Syncer).%s inserts into s.peers without comparing the inbound count with MaxInboundPeers in the same region under s.mu (locked=%v, compared=%v); the model's LAdd step is one atomic compare-and-insert", ins.Name.Name, locked, compared)
+					}
+					return
+				}
+				done = true
+				return
 			}
 		}
 	}
-	if f := parse("threadgroup/threadgroup.go"); f != nil {
-		if fd := funcDecl(f, "ThreadGroup", "Add"); fd == nil {
-			lc.failf("lint-anchor-missing", "threadgroup.(*ThreadGroup).Add not found")
-		} else if !lc.lockedRegion(fd, "tg.mu", false) {
-			lc.failf("threadgroup-critical-section-changed", "ThreadGroup.Add no longer tests the closed channel and increments the WaitGroup in one region under tg.mu")
-		}
+	walk(ins.Body.List)
+	if ac := p.method("Syncer", "allowConnect"); ac == nil {
+		lc.notef("syncer.(*Syncer).allowConnect not found")
+	} else if !lc.reaches(p, ac.Body, 2, func(n ast.Node) bool { return lc.isCallTo(n, "mu.Lock") }) {
+		lc.tief("caps", "syncer-allowconnect-snapshot", "syncer.(*Syncer).allowConnect counts the peers without taking s.mu")
 	}
-	// every path through Close reaches the thread group's Stop (the model's Close IS Stop):
-	// no return before it
-	for _, cl := range []struct{ file, recv, kind string }{
-		{"syncer/syncer.go", "Syncer", "syncer-close-skips-stop"},
-		{"rhp/v4/server.go", "Server", "rhp4-close-skips-stop"},
-		{"wallet/wallet.go", "SingleAddressWallet", "wallet-close-skips-stop"},
-	} {
-		f := parse(cl.file)
-		if f == nil {
-			continue
-		}
-		fd := funcDecl(f, cl.recv, "Close")
-		if fd == nil {
-			lc.failf("lint-anchor-missing", "%s: (*%s).Close not found", cl.file, cl.recv)
-			continue
-		}
-		reached := false
-		for _, st := range fd.Body.List {
-			if es, ok := st.(*ast.ExprStmt); ok && isCallTo(es.X, ".tg.Stop", lc) {
-				reached = true
-				break
-			}
-			if containsOutsideFuncLit(st, isReturn) {
-				lc.failf(cl.kind, "%s: (*%s).Close can return at\n%s\nbefore the thread group is stopped: on that path background work is not waited for and later work is accepted", cl.file, cl.recv, lc.src(st))
-				reached = true
-				break
-			}
-		}
-		if !reached {
-			lc.failf(cl.kind, "%s: (*%s).Close does not call tg.Stop() on its main path", cl.file, cl.recv)
-		}
-	}
-	for _, b := range lc.bad {
-		c.Res.Fail(b.kind, b.detail, map[string]any{"section": "lint", "repo": c.Repo})
-	}
-	c.Res.Count("lint:runs")
-	c.Res.Eval("lint", false)
 }
 
 // lintRunPeer checks the slot discipline of runPeer:
 //   - in the loop, after the per-peer slot was taken (the select sending on the channel), every
 //     branch that does not start the handler (continue / return) first gives the slot back;
-//   - the handler goroutine registers BOTH releases (the receive from the channel and
-//     releaseInflight) with defer before anything that can return.
-func (lc *lintCtx) lintRunPeer(f *ast.File) {
-	fd := funcDecl(f, "Syncer", "runPeer")
+//   - the handler (a function literal, or a function of the package started with go) registers
+//     BOTH releases (the receive from the channel and releaseInflight) with defer before anything
+//     that can return.
+func (lc *lintCtx) lintRunPeer(p *pkg) {
+	fd := p.method("Syncer", "runPeer")
 	if fd == nil {
-		lc.failf("lint-anchor-missing", "syncer.(*Syncer).runPeer not found")
+		lc.notef("syncer.(*Syncer).runPeer not found")
 		return
 	}
-	// the channel: x := make(chan struct{}, ...)
 	ch := ""
 	ast.Inspect(fd, func(n ast.Node) bool {
 		as, ok := n.(*ast.AssignStmt)
@@ -213,7 +424,7 @@ func (lc *lintCtx) lintRunPeer(f *ast.File) {
 		return true
 	})
 	if ch == "" {
-		lc.failf("lint-anchor-missing", "runPeer: the per-peer channel was not found")
+		lc.notef("runPeer: the per-peer channel was not found")
 		return
 	}
 	var loop *ast.ForStmt
@@ -224,7 +435,7 @@ func (lc *lintCtx) lintRunPeer(f *ast.File) {
 		return loop == nil
 	})
 	if loop == nil {
-		lc.failf("lint-anchor-missing", "runPeer: the accept loop was not found")
+		lc.notef("runPeer: the accept loop was not found")
 		return
 	}
 	acquired := false
@@ -247,17 +458,14 @@ func (lc *lintCtx) lintRunPeer(f *ast.File) {
 			goStmt = gs
 			break
 		}
-		// a statement between taking the slot and starting the handler: any way out of the
-		// iteration must hand the slot back first
 		ast.Inspect(st, func(n ast.Node) bool {
 			blk, ok := n.(*ast.BlockStmt)
 			if !ok {
 				return true
 			}
-			leaves := false
-			gaveBack := false
+			leaves, gaveBack := false, false
 			for _, bs := range blk.List {
-				if es, ok := bs.(*ast.ExprStmt); ok && isRecvFrom(es.X, ch) {
+				if lc.reaches(p, bs, 2, func(x ast.Node) bool { return isRecvFrom(x, ch) }) {
 					gaveBack = true
 				}
 				switch x := bs.(type) {
@@ -270,51 +478,123 @@ func (lc *lintCtx) lintRunPeer(f *ast.File) {
 				}
 			}
 			if leaves && !gaveBack {
-				lc.failf("syncer-loop-slot-not-returned", "runPeer: a branch taken after the per-peer slot was acquired leaves the iteration without `<-%s`:\n%s", ch, lc.src(blk))
+				lc.tief("slots", "syncer-loop-returns-slot", "runPeer: a branch taken after the per-peer slot was acquired leaves the iteration without `<-%s`:\n%s", ch, lc.src(blk))
 			}
 			return true
 		})
 	}
 	if !acquired {
-		lc.failf("lint-anchor-missing", "runPeer: no select that sends on %s", ch)
+		lc.notef("runPeer: no select that sends on %s", ch)
 		return
 	}
 	if goStmt == nil {
-		lc.failf("lint-anchor-missing", "runPeer: the handler goroutine was not found")
+		lc.notef("runPeer: no go statement after the slot is taken")
 		return
 	}
-	lit, ok := goStmt.Call.Fun.(*ast.FuncLit)
-	if !ok {
-		lc.failf("lint-anchor-missing", "runPeer: the handler is not a function literal")
+	var body *ast.BlockStmt
+	hch := ch
+	switch f := goStmt.Call.Fun.(type) {
+	case *ast.FuncLit:
+		body = f.Body
+	default:
+		if cd := p.callee(goStmt.Call); cd != nil {
+			body = cd.Body
+			hch = paramFor(goStmt.Call, cd, ch)
+		}
+	}
+	if body == nil {
+		lc.notef("runPeer: the handler started with go could not be resolved")
 		return
 	}
+	releasesPeer := func(n ast.Node) bool { return isRecvFrom(n, hch) }
+	releasesSub := func(n ast.Node) bool { return lc.isCallTo(n, "releaseInflight") }
 	peerDeferred, subDeferred := false, false
-	for _, st := range lit.Body.List {
+	for _, st := range body.List {
 		if ds, ok := st.(*ast.DeferStmt); ok {
-			if isCallTo(ds.Call, "releaseInflight", lc) {
+			// the deferred call itself, a deferred literal, or a deferred helper of the package
+			var scope ast.Node = ds.Call
+			if fl, ok := ds.Call.Fun.(*ast.FuncLit); ok {
+				scope = fl.Body
+			}
+			if lc.reaches(p, scope, 2, releasesSub) {
 				subDeferred = true
 			}
-			if fl, ok := ds.Call.Fun.(*ast.FuncLit); ok && containsOutsideFuncLit(fl.Body, func(n ast.Node) bool { return isRecvFrom(n, ch) }) {
+			if lc.reaches(p, scope, 2, releasesPeer) {
 				peerDeferred = true
-			}
-			if fl, ok := ds.Call.Fun.(*ast.FuncLit); ok && containsOutsideFuncLit(fl.Body, func(n ast.Node) bool { return isCallTo(n, "releaseInflight", lc) }) {
-				subDeferred = true
 			}
 			continue
 		}
 		if containsOutsideFuncLit(st, isReturn) && !(peerDeferred && subDeferred) {
 			what := []string{}
 			if !peerDeferred {
-				what = append(what, "`<-"+ch+"` (per-peer slot)")
+				what = append(what, "`<-"+hch+"` (per-peer slot)")
 			}
 			if !subDeferred {
 				what = append(what, "releaseInflight (subnet slot)")
 			}
-			lc.failf("syncer-handler-slot-release-not-deferred", "runPeer's handler goroutine can return at\n%s\nbefore %s is registered with defer: the slot leaks on that exit (thread group closed)", lc.src(st), strings.Join(what, " and "))
+			lc.tief("slots", "syncer-handler-defers-releases", "runPeer's handler can return at\n%s\nbefore %s is registered with defer: the slot would leak on that exit (thread group closed), in a syncer that is already shutting down -- not observable at run time", lc.src(st), strings.Join(what, " and "))
 			return
 		}
 	}
 	if !peerDeferred || !subDeferred {
-		lc.failf("syncer-handler-slot-release-not-deferred", "runPeer's handler goroutine does not release both slots in deferred calls (per-peer deferred: %v, subnet deferred: %v)", peerDeferred, subDeferred)
+		lc.tief("slots", "syncer-handler-defers-releases", "runPeer's handler does not release both slots in deferred calls (per-peer deferred: %v, subnet deferred: %v)", peerDeferred, subDeferred)
+	}
+}
+
+// runDirected runs, for every area in which a tie is broken, the dynamic scenarios the lint
+// stands for, harder than the regular sections do; a real defect then yields a concrete replay.
+func runDirected(c *Ctx, ties []tie, cases *[]string) {
+	areas := map[string]bool{}
+	for _, t := range ties {
+		areas[t.area] = true
+	}
+	failed := func() bool { return len(c.Res.Failures) > 0 }
+	if areas["caps"] && !failed() {
+		for m := 1; m <= 4 && !failed(); m++ {
+			for rep := 0; rep < 5 && !failed(); rep++ {
+				*cases = append(*cases, capsInbound(c, c.R.U64(), bedConfig{MaxSubnet: 64, MaxRPC: 4, MaxIn: m, MaxOut: 16, V4Bits: 24}, -1)...)
+			}
+		}
+		for i := 0; i < c.Scale(60, 300) && !failed(); i++ {
+			*cases = append(*cases, capsInbound(c, c.R.U64(), bedConfig{MaxSubnet: 64, MaxRPC: 4, MaxIn: 1 + i%3, MaxOut: 16, V4Bits: 24}, i)...)
+		}
+		c.Res.Count("directed:caps")
+	}
+	if areas["slots"] && !failed() {
+		for i := 0; i < c.Scale(60, 300) && !failed(); i++ {
+			cfg := bedConfig{MaxSubnet: []int{1, 2, 1, 2, 64}[i%5], MaxRPC: 1 + i%3, MaxIn: 64, MaxOut: 16, V4Bits: 24}
+			cs, _ := phasedScenario(c, c.R.U64(), cfg, 1+i%2+3*((i/2)%4))
+			*cases = append(*cases, cs...)
+		}
+		for i := 0; i < c.Scale(10, 60) && !failed(); i++ {
+			stressRun(c, c.R.U64(), bedConfig{MaxSubnet: []int{1, 2}[i%2], MaxRPC: 1 + i%2, MaxIn: 64, MaxOut: 16, V4Bits: 24}, 2*i+1) // Close in the middle
+		}
+		c.Res.Count("directed:slots")
+	}
+	if areas["threadgroup"] && !failed() {
+		for i := 0; i < c.Scale(200, 1000) && !failed(); i++ {
+			tgScripted(c, c.R.U64(), cases)
+		}
+		for i := 0; i < c.Scale(100, 500) && !failed(); i++ {
+			tgStress(c, c.R.U64()) // late Add racing with Stop
+		}
+		c.Res.Count("directed:threadgroup")
+	}
+	if areas["close"] && !failed() {
+		for i := 0; i < c.Scale(36, 200) && !failed(); i++ {
+			cfg := bedConfig{MaxSubnet: subnetLimits[i%5], MaxRPC: 1 + i%3, MaxIn: 64, MaxOut: 16, V4Bits: 24}
+			cs, _ := phasedScenario(c, c.R.U64(), cfg, i%3+3*(1+i%3))
+			*cases = append(*cases, cs...)
+		}
+		for i := 0; i < 16 && !failed(); i++ {
+			rhp4Shutdown(c, c.R.U64(), i, cases)
+		}
+		for i := 0; i < 8 && !failed(); i++ {
+			walletShutdown(c, c.R.U64(), i, cases)
+		}
+		c.Res.Count("directed:close")
+	}
+	for _, t := range ties {
+		c.Res.BreakTie(t.name, t.detail)
 	}
 }
